@@ -247,8 +247,8 @@ def _symbolic_dict_comp(ex, st, e, s1, seq, i, cond, n0, n_pc0, nd0):
     kv = ex.coerce(ty.Id, ok[0].val, e)
     vv = ex.to_storable(ovs[0].val)
     vt = ty.type_of(vv)
-    if vt is ty.Int:
-        vt, vv = ty.Real, ty.to_real(vv)
+    if isinstance(vv, int) and not isinstance(vv, bool):
+        vv = z3.IntVal(vv)
     if vt is None:
         raise _U(f"dict comprehension value of unknown sort: {vv!r}", e)
     rng = z3.And(i >= 0, i < seq.len)
